@@ -9,19 +9,25 @@ Tie
     and `GenLog.compute(model log)` vs the returned `log.activated_rails` (type, name, stop, action names);
     additionally `GenLog.compute` fed with the abstraction of the REAL processing log of the same run vs the returned log
     (type, name, stop, finished, decisions, actions with their LLM tasks, LLM call count);
-  * correspondence + oracle, kind "seq": 2-3 such calls on one conversation (carried `state` / message history) vs `PipelineOpts.session`
-    (calls are independent: `calls_independent`), every call judged by the same documented table;
+  * correspondence + oracle, kind "seq": 2-3 such calls one after the other on one LLMRails - on one conversation (carried `state` /
+    message history) or on separate conversations; each call in a task of its own or all calls awaited in ONE task (one async
+    context); calls with `options=None` (everything enabled) between / after calls with restricting options; the selection written
+    as list / dict / partial dict / `GenerationOptions` object, optionally the SAME options object re-used by several calls -
+    vs `PipelineOpts.session` (calls are independent: `calls_independent`), every call judged by the same documented table
+    with the options of THAT call;
   * correspondence, kind "log": the real `compute_generation_log` on synthetic processing logs (well-shaped and malformed)
     vs `GenLog.compute`.
 Oracle (from docs/user_guides/advanced/generation-options.md and the property text, independent of the Lean model):
   only selected categories run; replies per the documented table; the log lists exactly the input/output rails whose
-  action was really invoked, in order, `stop` on exactly the one whose scripted verdict was reject/fault; no LLM call
-  when dialog is not selected.
+  action was really invoked, in order, `stop` on exactly the one whose scripted verdict was reject/fault (on none when a
+  dialog flow refuses and every rail finished); no LLM call when dialog is not selected; selected retrieval rails do run
+  before a bot message is generated for a dialog decision.
 """
 import itertools
 import json
 
 from ..impl import pipeline_opts as po
+from ..impl import c16_interp as ci
 from ..translate import c16 as tr
 
 PROPERTY = "C16"
@@ -30,19 +36,24 @@ RULE = ("e2e: every subset of {input, dialog, retrieval, output} (+ the call wit
         "0-1 retrieval rails (declared as flow or subflow, refusal or rails-exception mode, three dialog behaviours) x rule tables whose "
         "verdict (accept / reject / fault / append / replace) depends on the text a rail is shown x user / bot / LLM texts from a pool with the "
         "trigger words; thorough additionally enumerates all verdict tables over 5 verdicts for <= 2 rails per category for all 16 subsets. "
-        "seq: 2-3 generate calls with different option subsets on ONE conversation (70% carried `state`, 30% message history), a third of them "
-        "'call without output (often blocked), then calls with output + bot message'; the documented table is applied to every call. "
+        "the selection is written as list (documented), dict of booleans, dict naming only the deselected categories, or GenerationOptions object; "
+        "dialog behaviours: general / intent flow with predefined message / with generated message / intent flow that answers with the refusal. "
+        "seq: 2-3 generate calls with different option subsets on ONE LLMRails (55% carried `state`, 25% message history, 20% separate conversations), "
+        "half of them awaited in one task (one async context), 15% of the calls with options=None (everything enabled) between/after restricting calls, "
+        "20% with ONE options object (mostly GenerationOptions) used for every call (one of the calls often ended by its input rails, without bot message), "
+        "a third 'call without output (often blocked), then calls with output + bot message'; the documented table is applied to every call with that call's options. "
         "log: synthetic processing logs (rail segments finished / unfinished, dialog steps, ignored flows and actions, LLM infos) and a malformed "
         "stream (finish without start, action outside a rail, nested starts). non-trivial = e2e with at least one rail invoked or one LLM call, "
-        "log with at least one rail start; distinct = distinct case JSON.")
+        "log with at least one rail start; distinct = distinct case JSON. "
+        "interp: rails of the two shipped shapes (check rail / rewriting rail, one registered action each) in lists of 0-4 input x 0-3 output rails x the 17 option values x texts: the real runtime vs the interpreter model on the generated llm_flows.co program (RailsInterp.drive), rail calls, LLM calls, reply and the complete event sequence of the call.")
 TRUSTED_BASE = [
     "translator harness/translate/c16.py (literal lists of compute_generation_log by AST path; llm_flows.co guards through the repo's own Colang 1.0 parser + Python ast)",
     "correspondence harness harness/props/C16.py + harness/impl/pipeline_opts.py (scripted rails, FakeLLM, md5 embedding engine, processing-log abstraction) + Lean driver Drive/C16.lean (JSON codecs, rule-table interpreter)",
-    "the Colang 1.0 interpreter (flows.py/runtime.py) is NOT modelled here: that `PipelineOpts.turn` is what the interpreter does with llm_flows.co is validated by execution on every run, not proved",
+    "the Colang 1.0 interpreter model (C14's V1Interp) inside RailsInterp.drive (generate_events with scripted actions) is PROVED to refine PipelineOpts.turn (pipeline_refines_interp, unbounded rail lists); that this model is what flows.py/runtime.py do is validated by C14's correspondence and by the `interp` family (harness/impl/c16_interp.py, event for event against log.internal_events), not proved",
 ]
 ASSUMPTIONS = [
-    "Colang 1.0; options.rails given as a list of category names or omitted (per-rail name lists are documented as unsupported)",
-    "a bot message is supplied whenever output rails are selected and dialog rails are not (the documented usage); retrieval rails only accept",
+    "Colang 1.0; options.rails given as a list of category names, a dict of booleans (missing keys = enabled), a GenerationOptions object, or omitted (per-rail name lists are documented as unsupported)",
+    "a bot message is supplied whenever output rails are selected and dialog rails are not (the documented usage), except when the input rails end the turn before it is needed; retrieval rails only accept",
     "rails have the shape `$v = execute action; if blocked: bot refuse to respond / create event XException; stop; if rewrite: $text = …`; one utterance per turn",
     "timestamps / durations of the generation log are not modelled",
     "turns stay below the runtime's safety cap of 100 new events (a handful of thorough cases with 3+2+2 rails and a two-call dialog exceed it: generate raises 'Too many events.'; skipped and counted as event-cap-hit)",
@@ -89,7 +100,7 @@ def g_cfg(rng, small):
         "output": [g_rail(rng) for _ in range(rng.choice([0, 1, 1, 2, 2] if small else [0, 1, 2, 2, 3]))],
         "retrieval": [[] for _ in range(rng.choice([0, 1, 1] if small else [0, 1, 2]))],
         "rail_def": rng.choice(["subflow", "flow"]),
-        "dialog": rng.choice(["general", "general", "predef", "llm"]),
+        "dialog": rng.choice(["general", "general", "predef", "llm", "refuse"]),
         "exceptions": rng.random() < 0.2,
     }
 
@@ -100,12 +111,19 @@ def subsets():
             yield list(s)
 
 
-def mk_e2e(cfg, opts, user, bot, llm_text, no_options=False):
+def mk_e2e(cfg, opts, user, bot, llm_text, no_options=False, form="list"):
     if no_options or opts is None or "dialog" in opts:
         bot = None  # a trailing assistant message is only routed when dialog rails are off
     elif "output" in opts and bot is None:
         bot = "ok"  # documented usage: output rails without dialog need the bot message
-    return {"kind": "e2e", "cfg": cfg, "opts": opts, "no_options": bool(no_options), "user": user, "bot": bot, "llm_text": llm_text}
+    c = {"kind": "e2e", "cfg": cfg, "opts": opts, "no_options": bool(no_options), "user": user, "bot": bot, "llm_text": llm_text}
+    if form != "list":
+        c["form"] = form  # how the selection is written: list (documented) / dict / partial dict / GenerationOptions object
+    return c
+
+
+def g_form(rng):
+    return rng.choice(["list", "list", "list", "dict", "partial", "object"])
 
 
 def gen_e2e(rng, tier):
@@ -121,7 +139,7 @@ def gen_e2e(rng, tier):
             llm_text = g_text(rng)
             if llm_text.startswith('"'):
                 llm_text = "t" + llm_text
-            cases.append(mk_e2e(cfg, None if s in (None, "NOOPT") else s, g_text(rng), rng.choice([None, g_text(rng), g_text(rng)]), llm_text, no_options=(s == "NOOPT")))
+            cases.append(mk_e2e(cfg, None if s in (None, "NOOPT") else s, g_text(rng), rng.choice([None, g_text(rng), g_text(rng)]), llm_text, no_options=(s == "NOOPT"), form=g_form(rng)))
     if tier == "thorough":
         # exhaustive: all 16 subsets x all verdict tables (5 verdicts) for <= 2 rails per category, unconditional rules
         for s in subs:
@@ -136,19 +154,38 @@ def gen_e2e(rng, tier):
     return cases
 
 
-def mk_call(rng, opts):
+def input_blocks(cfg, opts, user):
+    """does the documented input chain end the turn for this user text?"""
+    return opts is not None and "input" in opts and "dialog" not in opts and bool(cfg["input"]) and chain(cfg["input"], user)[0][0] != "ok"
+
+
+def mk_call(rng, opts, cfg=None, no_options=False):
+    user = g_text(rng)
     bot = rng.choice([None, g_text(rng), g_text(rng)])
+    if no_options:
+        opts = None
     if opts is None or "dialog" in opts:
         bot = None
     elif "output" in opts and bot is None:
-        bot = g_text(rng)
+        # the bot message may only be left out when the input rails end the turn before it is needed
+        if not (cfg is not None and input_blocks(cfg, opts, user) and rng.random() < 0.7):
+            bot = g_text(rng)
     llm_text = g_text(rng)
-    return {"opts": opts, "user": g_text(rng), "bot": bot, "llm_text": llm_text}
+    c = {"opts": opts, "user": user, "bot": bot, "llm_text": llm_text}
+    if no_options:
+        c["no_options"] = True  # `generate(messages)` without any options in the middle of the conversation
+    else:
+        f = g_form(rng)
+        if f != "list":
+            c["form"] = f
+    return c
 
 
 def gen_seq(rng, tier):
-    """2-3 `generate` calls with different option subsets on ONE conversation (carried `state`, or the message history)."""
-    n = 400 if tier == "quick" else 8000
+    """2-3 `generate` calls with different option subsets one after the other on ONE LLMRails: on one conversation (carried
+    `state`, or the message history) or on separate conversations; each call in a task of its own or all in one task; calls
+    without any options interleaved; the same options object re-used by calls with the same selection."""
+    n = 480 if tier == "quick" else 8000
     n_cfg = 16 if tier == "quick" else 80
     cfgs = [g_cfg(rng, small=True) for _ in range(n_cfg)]
     subs = list(subsets()) + [None]
@@ -159,18 +196,57 @@ def gen_seq(rng, tier):
         base = rng.choice(cfgs)
         # no faulting rails here: what a fault (hide_prev_turn) does to LATER turns is C03's subject
         cfg = dict(base, input=[g_rail(rng, faults=False) for _ in base["input"]], output=[g_rail(rng, faults=False) for _ in base["output"]])
-        via = "state" if rng.random() < 0.7 else "history"
+        via = rng.choice(["state"] * 11 + ["history"] * 5 + ["separate"] * 4)
         ln = 2 if (via == "state" and rng.random() < 0.8) else rng.choice([2, 3])
         r = rng.random()
         if r < 0.35:
             # the pattern the quantifier text singles out: a call without `output` (often blocked), then one with `output`
             opts_seq = [rng.choice(no_out)] + [rng.choice(with_out) for _ in range(ln - 1)]
-        elif r < 0.5 and via == "history":
+        elif r < 0.5:
             o = rng.choice(subs)
-            opts_seq = [o] * ln  # same options: the message-history cache hits
+            opts_seq = [o] * ln  # same options: the message-history cache hits / the options object can be shared
         else:
             opts_seq = [rng.choice(subs) for _ in range(ln)]
-        cases.append({"kind": "seq", "cfg": cfg, "via": via, "calls": [mk_call(rng, o) for o in opts_seq]})
+        # a call WITHOUT options between / after calls with options (never the only kind of call)
+        noopt = [rng.random() < 0.15 for _ in opts_seq]
+        if all(noopt):
+            noopt[0] = False
+        case = {"kind": "seq", "cfg": cfg, "via": via, "calls": [mk_call(rng, o, cfg, no_options=z) for o, z in zip(opts_seq, noopt)]}
+        if rng.random() < 0.5:
+            case["ctx"] = "one-task"  # all calls awaited in one task (one async context)
+        if rng.random() < 0.2:
+            # ONE options object (mostly a GenerationOptions, as a server keeps it) used for every call of the conversation;
+            # often one of the calls is ended by its input rails (then it needs no bot message) and the others are not
+            o = rng.choice([x for x in with_out if "input" in x]) if rng.random() < 0.5 else rng.choice(with_out) if rng.random() < 0.4 else rng.choice(subs)
+            f = rng.choice(["object", "object", "object", "dict", "list", "partial"])
+            calls = [mk_call(rng, o, cfg) for _ in range(ln)]
+            if o is not None and "input" in o and "dialog" not in o and cfg["input"] and rng.random() < 0.6:
+                j = rng.randrange(ln)
+                cfg["input"][rng.randrange(len(cfg["input"]))].insert(0, ["bad", ["reject"]])
+                for i, c in enumerate(calls):
+                    c["user"] = "bad" if i == j else c["user"].replace("bad", "ok")
+            for c in calls:
+                c.pop("form", None)
+                if f != "list":
+                    c["form"] = f
+                if c["bot"] is not None and input_blocks(cfg, o, c["user"]) and rng.random() < 0.7:
+                    c["bot"] = None  # nothing to check: the input rails end the turn
+                elif c["bot"] is None and o is not None and "output" in o and "dialog" not in o and not input_blocks(cfg, o, c["user"]):
+                    c["bot"] = g_text(rng)  # the texts / rules were changed above: the bot message is needed after all
+            case["calls"] = calls
+            case["share"] = True
+        elif rng.random() < 0.3:
+            case["share"] = True  # calls with the same selection + form pass the very same options object
+            if rng.random() < 0.5:
+                f = g_form(rng)
+                for c in case["calls"]:
+                    if not c.get("no_options"):
+                        c.pop("form", None)
+                        if f != "list":
+                            c["form"] = f
+        if not in_domain(case):
+            raise AssertionError("gen_seq left the region of the property: " + json.dumps(case))
+        cases.append(case)
     cases.sort(key=lambda c: json.dumps(po._cfg_key(c["cfg"])))
     return cases
 
@@ -218,7 +294,8 @@ def seg_dialog(rng):
     if fid != "run dialog rails":
         ev += [["act", "generate_user_intent"]] + [["llm", task]] * rng.choice([0, 1, 1, 2]) + [["actfin", "generate_user_intent"]]
     if rng.random() < 0.5:
-        ev.append(["step", rng.choice(["greeting", "other flow", "generate next step"]), [["intent", "express greeting"]]])
+        # a dialog flow may itself decide to refuse: a refusal in the log although every rail finished
+        ev.append(["step", rng.choice(["greeting", "other flow", "generate next step"]), [["intent", rng.choice(["express greeting", "express greeting", "refuse to respond"])]]])
         ev += seg_gbm(rng)
     return ev
 
@@ -276,7 +353,7 @@ def gen_log_case(rng):
 
 def gen_cases(rng, tier):
     n_log = 3000 if tier == "quick" else 60000
-    return [gen_log_case(rng) for _ in range(n_log)] + gen_e2e(rng, tier) + gen_seq(rng, tier)
+    return [gen_log_case(rng) for _ in range(n_log)] + gen_e2e(rng, tier) + gen_seq(rng, tier) + ci.gen(rng, tier)
 
 
 def escalate(rng, case, tier):
@@ -337,6 +414,8 @@ def rails_obs(rails):
 
 
 def run_impl(case):
+    if case["kind"] == "interp":
+        return ci.run(case)
     if case["kind"] == "log":
         from nemoguardrails.logging.processing_log import compute_generation_log
 
@@ -349,8 +428,8 @@ def run_impl(case):
             return {"res": "Other:" + type(e).__name__, "msg": str(e)[:200]}
     cfg = case["cfg"]
     if case["kind"] == "seq":
-        return {"per_call": po.run_session(cfg, case["calls"], case["via"])}
-    obs = po.run_turn_full(cfg, case["opts"], case["user"], case["bot"], case["llm_text"], no_options=case.get("no_options", False))
+        return {"per_call": po.run_session(cfg, case["calls"], case["via"], ctx=case.get("ctx", "task-per-call"), share=bool(case.get("share")))}
+    obs = po.run_turn_full(cfg, case["opts"], case["user"], case["bot"], case["llm_text"], no_options=case.get("no_options", False), form=case.get("form", "list"))
     return obs
 
 
@@ -362,17 +441,21 @@ def dialog_req(cfg, llm_text):
         return {"kind": "general", "text": llm_text}
     if d == "predef":
         return {"kind": "intent", "flow": "greeting", "bot_intent": "express greeting", "predefined": True, "text": cfg.get("predef_text", "Hello there")}
+    if d == "refuse":
+        return {"kind": "intent", "flow": "greeting", "bot_intent": "refuse to respond", "predefined": True, "text": po.REFUSAL}
     return {"kind": "intent", "flow": "greeting", "bot_intent": "express greeting", "predefined": False, "text": llm_text}
 
 
 def model_requests(case, obs):
+    if case["kind"] == "interp":
+        return [ci.request(case)]
     if case["kind"] == "log":
         return [{"m": "C16.genlog", "log": case["log"]}]
     cfg = case["cfg"]
     mcfg = {"input": cfg["input"], "output": cfg["output"], "retrieval": cfg["retrieval"], "exceptions": bool(cfg.get("exceptions")), "refusal": po.REFUSAL}
     if case["kind"] == "seq":
         n = len(obs["per_call"])
-        reqs = [{"m": "C16.session", "cfg": mcfg, "calls": [{"opts": c["opts"] if c["opts"] is not None else list(CATS), "user": c["user"], "bot": c["bot"],
+        reqs = [{"m": "C16.session", "cfg": mcfg, "calls": [{"opts": None if c.get("no_options") else (c["opts"] if c["opts"] is not None else list(CATS)), "user": c["user"], "bot": c["bot"],
                                                                "dialog": dialog_req(cfg, c["llm_text"])} for c in case["calls"][:n]]}]
         for o in obs["per_call"]:
             reqs.append({"m": "C16.genlog", "log": o.get("alog") or []})
@@ -402,6 +485,8 @@ def _rails_key(rails, full):
 
 
 def compare(case, obs, mouts):
+    if case["kind"] == "interp":
+        return ci.compare(case, obs, mouts[0])
     m = mouts[0]
     if case["kind"] == "log":
         if m["res"] != obs["res"]:
@@ -425,7 +510,7 @@ def compare(case, obs, mouts):
 
 def call_case(case, k):
     c = case["calls"][k]
-    return {"kind": "e2e", "cfg": case["cfg"], "opts": c["opts"], "no_options": False, "user": c["user"], "bot": c["bot"], "llm_text": c["llm_text"]}
+    return {"kind": "e2e", "cfg": case["cfg"], "opts": c["opts"], "no_options": bool(c.get("no_options")), "user": c["user"], "bot": c["bot"], "llm_text": c["llm_text"]}
 
 
 def _compare_e2e(case, obs, m, g2):
@@ -508,6 +593,8 @@ def well_shaped(alog):
 
 
 def oracle(case, obs):
+    if case["kind"] == "interp":
+        return ci.oracle(case, obs)
     if case["kind"] == "log":
         if obs["res"] != "ok" or not well_shaped(case["log"]):
             return None  # the property speaks about logs the pipeline produces
@@ -531,7 +618,10 @@ def oracle(case, obs):
         for k, o in enumerate(obs["per_call"]):
             d = _oracle_e2e(call_case(case, k), o)
             if d:
-                return f"call #{k} of {len(case['calls'])} on one conversation (via {case['via']}, after calls with options {[c['opts'] for c in case['calls'][:k]]}): {d}"
+                where = "on separate conversations of one LLMRails" if case["via"] == "separate" else f"on one conversation (via {case['via']})"
+                how = ("; all calls in one task" if case.get("ctx") == "one-task" else "") + ("; equal selections share ONE options object" if case.get("share") else "")
+                prev = [("no options" if c.get("no_options") else c["opts"]) for c in case["calls"][:k]]
+                return f"call #{k} of {len(case['calls'])} {where}{how}, after calls with options {prev}: {d}"
         return None
     return _oracle_e2e(case, obs)
 
@@ -564,8 +654,9 @@ def _oracle_e2e(case, obs):
     if blocked is None:
         if "dialog" in sel:
             d = cfg.get("dialog", "general")
-            bot, checked = (cfg.get("predef_text", "Hello there"), False) if d == "predef" else (case["llm_text"], True)
-            want_llm = {"general": 1, "predef": 1, "llm": 2}[d]
+            # predefined messages (incl. the refusal a dialog flow answers with) are not shown to the output rails
+            bot, checked = (cfg.get("predef_text", "Hello there"), False) if d == "predef" else (po.REFUSAL, False) if d == "refuse" else (case["llm_text"], True)
+            want_llm = {"general": 1, "predef": 1, "llm": 2, "refuse": 1}[d]
             if obs["llm_calls"] != want_llm:
                 return f"dialog rails selected: expected {want_llm} LLM call(s), saw {obs['llm_calls']}"
         elif "output" in sel:
@@ -599,6 +690,16 @@ def _oracle_e2e(case, obs):
     io_calls = [c for c in obs["calls"] if c[0] in ("input", "output")]
     if io_calls != expected_calls:
         return f"input/output rails invoked {io_calls}, documented {expected_calls}"
+    # (2b) "exactly the selected categories": a selected category with configured rails is not left out.  For retrieval rails
+    # this is asserted where the documentation places them: before a bot message is generated for the bot intent a dialog
+    # flow decided on (what happens around refusals of blocked turns is not documented and not asserted).
+    if "retrieval" in sel and "dialog" in sel and cfg["retrieval"] and cfg.get("dialog") in ("predef", "llm", "refuse") and not (blocked and blocked[0] == "input"):
+        first = []
+        for c in obs["calls"]:
+            if c[0] == "retrieval" and c[1] not in first:
+                first.append(c[1])
+        if first != list(range(len(cfg["retrieval"]))):
+            return f"retrieval rails are selected ({sorted(sel)}) and a bot message was generated for a dialog decision, but the retrieval rails invoked were {first} of {len(cfg['retrieval'])} configured"
     # (3) the log lists the rails that actually ran, stop on exactly the blocker
     if not case.get("no_options"):
         io = [[r["type"], r["name"], r["stop"]] for r in obs["rails"] if r["type"] in ("input", "output")]
@@ -611,7 +712,34 @@ def _oracle_e2e(case, obs):
     return None
 
 
+def _failure_class(d):
+    for needle, cls in (("generate raised", "raised"), ("ran although", "unselected-category-ran"), ("LLM call(s) although", "llm-without-dialog"),
+                        ("dialog rails selected: expected", "llm-count"), ("documented reply", "reply"), ("rails-exception mode", "reply"),
+                        ("input/output rails invoked", "rails-invoked"), ("retrieval rails are selected", "selected-retrieval-missing"),
+                        ("log.activated_rails", "log"), ("flagged stop", "log")):
+        if needle in d:
+            return cls
+    return "other"
+
+
 def signature(case, obs, msg):
+    """Signature of a recorded finding if the failure lies in its region; otherwise, for a sequence, a description of the
+    failure (first or later call, kind of deviation).  The description matches no recorded finding; it only keeps the
+    minimisation on the SAME failure: the smaller candidates are evaluated one after the other in one process, and a
+    shortened sequence whose FIRST call fails there (because of what ran before it) is not a smaller witness of a failure
+    of a LATER call."""
+    if case.get("kind") == "interp":
+        return None
+    s = _known_signature(case, obs, msg)
+    if s is None and case.get("kind") == "seq":
+        for k, o in enumerate(obs.get("per_call", [])):
+            d = _oracle_e2e(call_case(case, k), o)
+            if d:
+                return f"seq:{'first' if k == 0 else 'later'}-call:{_failure_class(d)}"
+    return s
+
+
+def _known_signature(case, obs, msg):
     """Structural signatures of recorded findings.
 
     `state-loses-earlier-calls`: a conversation driven through `generate(..., state=...)` whose FIRST deviating call is
@@ -639,6 +767,8 @@ def signature(case, obs, msg):
 
 
 def nontrivial(case, obs):
+    if case["kind"] == "interp":
+        return bool(obs.get("calls")) or obs.get("llm_calls", 0) > 0
     if case["kind"] == "log":
         return any(e[0] in ("in", "out") for e in case["log"])
     if case["kind"] == "seq":
@@ -647,6 +777,8 @@ def nontrivial(case, obs):
 
 
 def tags(case, obs):
+    if case["kind"] == "interp":
+        return ci.tags(case, obs)
     if case["kind"] == "log":
         t = ["kind:log", "shape:" + case["shape"], "res:" + obs["res"]]
         if obs["res"] == "ok":
@@ -654,7 +786,17 @@ def tags(case, obs):
             t.append("rails:%d" % min(len(obs["rails"]), 6))
         return t
     if case["kind"] == "seq":
-        t = ["kind:seq", "via:" + case["via"], "seq-len:%d" % len(case["calls"]), "seq-ran:%d" % len(obs["per_call"])]
+        t = ["kind:seq", "via:" + case["via"], "seq-len:%d" % len(case["calls"]), "seq-ran:%d" % len(obs["per_call"]), "ctx:" + case.get("ctx", "task-per-call")]
+        if case.get("share"):
+            keys = [(c.get("form", "list"), json.dumps(c["opts"])) for c in case["calls"] if not c.get("no_options")]
+            t.append("options-object-reused" if len(set(keys)) < len(keys) else "share-without-repeat")
+        if any(c.get("no_options") for c in case["calls"][1:]):
+            t.append("call-without-options-after-calls-with")
+        for c in case["calls"]:
+            if not c.get("no_options"):
+                t.append("seq-form:" + c.get("form", "list"))
+            if c["bot"] is None and c["opts"] is not None and "output" in c["opts"] and "dialog" not in c["opts"]:
+                t.append("no-bot-message-input-blocks")
         for k, o in enumerate(obs["per_call"]):
             if k > 0 and o.get("response") == po.REFUSAL and any(r["stop"] for r in o.get("rails", [])):
                 t.append("later-call-blocked")
@@ -669,7 +811,9 @@ def tags(case, obs):
     sel = "noopt" if case.get("no_options") else ("default" if case["opts"] is None else "+".join(c[0] for c in case["opts"]) or "none")
     if capped(obs):
         return ["kind:e2e", "event-cap-hit"]
-    t = ["kind:e2e", "opts:" + sel, "dialog:" + cfg["dialog"], "def:" + cfg["rail_def"], "n_in:%d" % len(cfg["input"]), "n_out:%d" % len(cfg["output"])]
+    t = ["kind:e2e", "opts:" + sel, "dialog:" + cfg["dialog"], "def:" + cfg["rail_def"], "n_in:%d" % len(cfg["input"]), "n_out:%d" % len(cfg["output"]), "form:" + case.get("form", "list")]
+    if cfg["dialog"] == "refuse" and obs.get("response") == po.REFUSAL and not any(r["stop"] for r in obs.get("rails", [])) and obs.get("llm_calls"):
+        t.append("dialog-refusal-no-rail-blocked")
     if cfg.get("exceptions"):
         t.append("exceptions-mode")
     if obs.get("exception"):
@@ -688,7 +832,29 @@ def tags(case, obs):
     return t
 
 
+def in_domain(case):
+    """ASSUMPTIONS: where output rails are selected without dialog rails a bot message is supplied, unless the input rails
+    end the turn before it is needed (a smaller case must not leave the region the property speaks about)."""
+    if case["kind"] == "log":
+        return True
+    calls = case["calls"] if case["kind"] == "seq" else [case]
+    for c in calls:
+        o = c["opts"]
+        if not c.get("no_options") and o is not None and "output" in o and "dialog" not in o and c["bot"] is None and not input_blocks(case["cfg"], o, c["user"]):
+            return False
+    return True
+
+
 def shrink(case):
+    if case["kind"] == "interp":
+        yield from ci.shrink(case)
+        return
+    for c in _shrink(case):
+        if in_domain(c):
+            yield c
+
+
+def _shrink(case):
     if case["kind"] == "log":
         ev = case["log"]
         for i in range(len(ev)):
@@ -698,8 +864,16 @@ def shrink(case):
     if case["kind"] == "seq":
         calls = case["calls"]
         for i in range(len(calls)):
-            if len(calls) > 1:
+            # calls on SEPARATE conversations can only influence each other through process-wide state; the candidates are
+            # evaluated one after the other in one process, so a shortened sequence could fail only because of the candidates
+            # run before it - such a witness keeps all its calls (it must fail when replayed in a fresh process)
+            if len(calls) > 1 and case["via"] != "separate":
                 yield dict(case, calls=calls[:i] + calls[i + 1:])
+        for k in ("share", "ctx"):  # back to the plain way of calling
+            if k in case:
+                yield {a: b for a, b in case.items() if a != k}
+        if any("form" in c for c in calls):
+            yield dict(case, calls=[{a: b for a, b in c.items() if a != "form"} for c in calls])
         for i, c in enumerate(calls):
             for k in ("user", "bot", "llm_text"):
                 if c.get(k) and len(c[k]) > 2 and " " in c[k]:
@@ -712,6 +886,8 @@ def shrink(case):
                 yield dict(case, cfg=dict(cfg, **{cat: cfg[cat][:i] + [rules[:j] + rules[j + 1:]] + cfg[cat][i + 1:]}))
     if case["kind"] == "seq":
         return
+    if "form" in case:
+        yield {a: b for a, b in case.items() if a != "form"}
     for k in ("user", "bot", "llm_text"):
         if case.get(k) and len(case[k]) > 2:
             yield dict(case, **{k: case[k].split(" ")[0] or "q"})
